@@ -673,6 +673,28 @@ where
     }
 }
 
+/// The mirrored visitor: the *second* series lives in the visited container, the first in a plain Vec
+/// (a second argument of a different backend / encoding than the first).
+pub struct Roll2SecondVisitor<'a> {
+    pub f: R2,
+    pub first: &'a [X],
+    pub w: usize,
+    pub mp: Option<usize>,
+    pub out: Vec<(String, Outcome<Vec<Cell>>)>,
+}
+impl<'a, T> mc_adapt::backends::BackendVisitor<T> for Roll2SecondVisitor<'a>
+where
+    T: IsNone,
+    T::Inner: Number,
+{
+    fn visit<V: tevec::prelude::Vec1View<T> + mc_adapt::backends::SliceRead<T>>(&mut self, name: &str, v: &V) {
+        let (f, w, mp) = (self.f, self.w, self.mp);
+        let a: Vec<f64> = enc_vec(self.first);
+        let o = catch(|| call_v2::<Vec<f64>, f64, V, T, Vec<f64>, f64>(f, &a, v, w, mp, Path::Ret).cells());
+        self.out.push((format!("second series in {name}"), o));
+    }
+}
+
 // ------------------------------------------------------------------------------------------------
 // Large-scope, low-entropy families (DESIGN 3.3b): long series with a little structure, enumerated
 // completely over their few parameters, so that windows and lengths far beyond the history trees are
@@ -738,9 +760,21 @@ pub fn structured_grid(thorough: bool) -> Vec<(usize, Vec<usize>)> {
             (70, vec![16, 32, 63, 64, 65, 70, 72]),
             (130, vec![64, 100, 127, 128, 129, 130]),
             (300, vec![128, 200, 255, 256, 257, 299, 300, 301]),
+            // very long series (a state that is rebuilt / re-synchronised every so many positions); every
+            // fourth shape, few windows
+            (1030, vec![3, 20]),
+            (2100, vec![7, 64]),
         ]
     } else {
-        vec![(40, vec![12, 16, 17, 32, 33, 40, 41]), (270, vec![255, 256, 257])]
+        vec![(40, vec![12, 16, 17, 32, 33, 40, 41]), (270, vec![255, 256, 257]), (1030, vec![3, 20])]
+    }
+}
+fn structured_shapes_for(len: usize, bounded: bool) -> Vec<(String, Vec<X>)> {
+    let shapes = structured_shapes(len, bounded);
+    if len > 1000 {
+        shapes.into_iter().enumerate().filter(|(i, _)| i % 4 == 0).map(|(_, s)| s).collect()
+    } else {
+        shapes
     }
 }
 
@@ -755,7 +789,7 @@ pub fn check_structured(fam: &SeriesFam, thorough: bool, n_tys: usize, ctx: &mut
     // bounded shapes whenever a value is compared with a tolerance
     let bounded = fam.law != Law::Mask && fam.fns.iter().any(|f| cmp_for(*f) == Cmp::Tol);
     for (len, ws) in structured_grid(thorough) {
-        check_shapes(fam, "structured", &structured_shapes(len, bounded), &ws, n_tys, ctx);
+        check_shapes(fam, "structured", &structured_shapes_for(len, bounded), &ws, n_tys, ctx);
     }
 }
 
@@ -764,7 +798,7 @@ pub fn check_structured_par(fam: &SeriesFam, thorough: bool, n_tys: usize, threa
     let bounded = fam.law != Law::Mask && fam.fns.iter().any(|f| cmp_for(*f) == Cmp::Tol);
     let mut items: Vec<((String, Vec<X>), Vec<usize>)> = vec![];
     for (len, ws) in structured_grid(thorough) {
-        for sh in structured_shapes(len, bounded) {
+        for sh in structured_shapes_for(len, bounded) {
             items.push((sh, ws.clone()));
         }
     }
@@ -845,12 +879,16 @@ pub fn check_structured_pairs(fam: &PairFam, thorough: bool, ctx: &mut Ctx) {
     let name = format!("{}/structured", fam.name);
     // smaller grid: the regression oracles are O(len * w) per call and there are 13 statistics
     let grid: Vec<(usize, Vec<usize>)> = if thorough {
-        vec![(40, vec![12, 16, 17, 32, 33, 40, 41]), (130, vec![64, 127, 128, 129]), (270, vec![255, 256, 257])]
+        // very long series (a state that is rebuilt or re-synchronised every so many positions): few windows
+        vec![(40, vec![12, 16, 17, 32, 33, 40, 41]), (130, vec![64, 127, 128, 129]), (270, vec![255, 256, 257]), (1030, vec![2, 20]), (2100, vec![7, 64])]
     } else {
-        vec![(40, vec![16, 17, 33, 40, 41]), (260, vec![256, 257])]
+        vec![(40, vec![16, 17, 33, 40, 41]), (260, vec![256, 257]), (1030, vec![2, 20])]
     };
     for (len, ws) in grid {
-        let shapes = structured_shapes(len, fam.law != Law::Mask);
+        let mut shapes = structured_shapes(len, fam.law != Law::Mask);
+        if len > 1000 {
+            shapes = shapes.into_iter().enumerate().filter(|(i, _)| i % 4 == 0).map(|(_, s)| s).collect();
+        }
         let saw: Vec<X> = (0..len).map(|i| Some(((i * 7) % 5) as f64 - 1.0)).collect();
         let gappy: Vec<X> = (0..len).map(|i| if i % 5 == 3 || (i > 9 && i < 20) { None } else { Some((i % 11) as f64) }).collect();
         for (label, a) in &shapes {
@@ -948,6 +986,11 @@ pub fn check_backends_value(name: &str, fns: &[R1], fns2: &[R2], law: Law, word:
             let mut vis = Roll2Visitor { f, second: &second, w, mp, out: vec![] };
             for_backends::<f64, _>(&x, 0, &mut vis);
             for_backends_opt(&x, 0, &mut vis);
+            // and mirrored: the second series in every backend configuration, the first in a Vec
+            let mut vis2 = Roll2SecondVisitor { f, first: &x, w, mp, out: vec![] };
+            for_backends::<f64, _>(&second, 0, &mut vis2);
+            for_backends_opt(&second, 0, &mut vis2);
+            vis.out.extend(vis2.out.drain(..));
             for (bname, got) in vis.out.drain(..) {
                 ctx.eval(name, outcome_hash(&got));
                 ctx.transitions += 1;
